@@ -13,8 +13,10 @@ use std::collections::BTreeMap;
 use std::sync::atomic::{AtomicUsize, Ordering};
 use std::time::Duration;
 
-const TICK_NS: u64 = 1000;
-const HOUR_NS: u64 = 3_600_000_000_000;
+/// virtual cost of one candidate examined by the join iterator: 1 microsecond, and 300 ms (so that consumed time
+/// crosses whole seconds and every representation of a duration is exercised)
+const TICKS_NS: [u64; 2] = [1000, 300_000_000];
+const HOUR_NS: u64 = 360_000_000_000_000;
 
 #[derive(Clone)]
 pub struct Prog {
@@ -70,6 +72,7 @@ pub fn programs(tier: Tier) -> Vec<Prog> {
     v.push(Prog { family: "check-phase", name: "matching-policy/authorizer".into(), code: format!("{facts} allow if {body};"), in_token: false, query: q.clone(), body_preds: 3, authority_code: "auth(0);".into() });
     v.push(Prog { family: "check-phase", name: "passing-check/block".into(), code: format!("{facts} check all {body};"), in_token: true, query: q.clone(), body_preds: 3, authority_code: "auth(0);".into() });
     v.push(Prog { family: "check-phase", name: "passing-check/authority".into(), code: "b(1);".into(), in_token: true, query: q.clone(), body_preds: 3, authority_code: format!("{facts} check all {body};") });
+    v.push(Prog { family: "check-phase", name: "chain(3)+passing-check/authorizer".into(), code: format!("{} {facts} check all f($a), f($b), $a + $b >= 0;", chain(3)), in_token: false, query: "q($x) <- reach($x)".into(), body_preds: 4, authority_code: "auth(0);".into() });
     v.push(Prog { family: "check-phase", name: "passing-check-if/authorizer".into(), code: format!("{facts} check if {body}, $a + $b + $c == 15;"), in_token: false, query: q, body_preds: 3, authority_code: "auth(0);".into() });
     v
 }
@@ -186,13 +189,13 @@ pub fn token_for(p: &Prog) -> Option<Biscuit> {
 }
 
 #[cfg(feature = "hooks")]
-fn install(deadline_ns: u64) {
+fn install(tick_ns: u64, deadline_ns: u64) {
     use biscuit_auth::verif_hooks as vh;
-    vh::install_clock(0, TICK_NS, None);
+    vh::install_clock(0, tick_ns, None);
     vh::set_deadline(deadline_ns);
 }
 #[cfg(not(feature = "hooks"))]
-fn install(_d: u64) {}
+fn install(_t: u64, _d: u64) {}
 
 fn call_is_budgeted(c: Call) -> bool {
     matches!(c, Call::Run | Call::Authorize | Call::Query | Call::QueryAll)
@@ -228,10 +231,13 @@ pub fn run(tier: Tier) {
         frontier = next;
     }
 
-    progs.par_iter().for_each(|p| {
+    let prog_ticks: Vec<(&Prog, u64)> = progs.iter().flat_map(|p| TICKS_NS.iter().map(move |t| (p, *t))).collect();
+    prog_ticks.par_iter().for_each(|(p, tick_ns)| {
+        let p: &Prog = p;
+        let tick_ns = *tick_ns;
         let token = token_for(p);
         // unconstrained baseline: iterations L, facts N, virtual time T of run + authorize + query
-        install(HOUR_NS);
+        install(tick_ns, HOUR_NS);
         let mut a = build(p, token.as_ref(), &crate::c04::big_limits()).expect("program builds");
         let r0 = do_call(&mut a, Call::Authorize, p);
         assert_eq!(r0, Res::Completed, "baseline authorize of {} must complete: {r0:?}", p.name);
@@ -254,10 +260,10 @@ pub fn run(tier: Tier) {
         for (cl, v) in [("0", 0u64), ("1", 1), ("N-1", n.saturating_sub(1)), ("N", n), ("N+1", n + 1)] {
             lims.push(Lim { class: format!("max_facts={cl}"), limits: AuthorizerLimits { max_iterations: unl_i, max_facts: v, max_time: unl_t } });
         }
-        for (cl, v) in [("0", 0u64), ("1tick", TICK_NS), ("T-1tick", t_ns.saturating_sub(TICK_NS)), ("T", t_ns), ("T+1tick", t_ns + TICK_NS), ("2T", 2 * t_ns + TICK_NS)] {
+        for (cl, v) in [("0", 0u64), ("1tick", tick_ns), ("T-1tick", t_ns.saturating_sub(tick_ns)), ("T", t_ns), ("T+1tick", t_ns + tick_ns), ("2T", 2 * t_ns + tick_ns)] {
             lims.push(Lim { class: format!("max_time={cl}"), limits: AuthorizerLimits { max_iterations: unl_i, max_facts: unl_f, max_time: Duration::from_nanos(v) } });
         }
-        lims.push(Lim { class: "all-at-boundary".into(), limits: AuthorizerLimits { max_iterations: l + 1, max_facts: n + 1, max_time: Duration::from_nanos(t_ns + TICK_NS) } });
+        lims.push(Lim { class: "all-at-boundary".into(), limits: AuthorizerLimits { max_iterations: l + 1, max_facts: n + 1, max_time: Duration::from_nanos(t_ns + tick_ns) } });
         lims.push(Lim { class: "all-below-boundary".into(), limits: AuthorizerLimits { max_iterations: l, max_facts: n, max_time: Duration::from_nanos(t_ns) } });
         lims.push(Lim { class: "default-like".into(), limits: AuthorizerLimits { max_iterations: 100, max_facts: 1000, max_time: Duration::from_nanos(HOUR_NS) } });
 
@@ -269,7 +275,7 @@ pub fn run(tier: Tier) {
             let max_time_ns = lim.limits.max_time.as_nanos() as u64;
             for seq in &seqs {
                 executions.fetch_add(1, Ordering::Relaxed);
-                install(max_time_ns);
+                install(tick_ns, max_time_ns);
                 let mut a = match guard(|| build(p, token.as_ref(), &lim.limits)) {
                     Ok(Ok(a)) => a,
                     Ok(Err(e)) => {
@@ -358,7 +364,7 @@ pub fn run(tier: Tier) {
         "call_outcomes": outcomes.into_inner().unwrap(),
         "exhaustive": true,
         "samples": samples_out.take(),
-        "rule": "every call sequence up to the depth over {run, authorize, authorize_with_limits(big), query, query_all, query_with_limits(big), clone, snapshot->restore} on one Authorizer x every program (chains needing L iterations, fan-out, k-way joins = one expensive iteration, preloaded facts, mixed; in the authorizer or in a token block) x every limit class (each budget at 0, 1, boundary-1, boundary, boundary+1 around the program's own needs, others unlimited; all at / below the boundary); virtual clock: each candidate examined by the join iterator costs 1 microsecond, reads are free; invariants S1 (completion only within cumulative budgets), S2 (overshoot after the deadline <= 32 x (facts + body predicates + 1) ticks), no panic",
+        "rule": "every call sequence up to the depth over {run, authorize, authorize_with_limits(big), query, query_all, query_with_limits(big), clone, snapshot->restore} on one Authorizer x every program (chains needing L iterations, fan-out, k-way joins = one expensive iteration, preloaded facts, mixed; in the authorizer or in a token block) x every limit class (each budget at 0, 1, boundary-1, boundary, boundary+1 around the program's own needs, others unlimited; all at / below the boundary); virtual clock: each candidate examined by the join iterator costs 1 microsecond in one pass and 300 ms in a second pass (consumed time then crosses whole seconds), reads are free; invariants S1 (completion only within cumulative budgets), S2 (overshoot after the deadline <= 32 x (facts + body predicates + 1) ticks), no panic",
     });
     ctx.finish(
         "model_checking",
